@@ -123,10 +123,11 @@ def diagSum (n : Nat) (A : Mat) : Rat := sumTo n fun j => rabs (get A j j)
 def offSum (n : Nat) (A : Mat) : Rat :=
   sumTo n fun j => (List.range n).foldl (fun acc k => if k > j then acc + rabs (get A k j) else acc) 0
 
-/-- `off_diagonal_sum / eigenvalues_sum < 1.0e-12`; with a zero denominator the C++ quotient is
-    `inf` or `NaN` and the comparison is false. -/
+/-- the convergence test since 0850cf3: `off_diagonal_sum == 0.0 || off_diagonal_sum / eigenvalues_sum < 1.0e-12`
+    — an iterate without sub-diagonal mass is converged (also the zero matrix, where the quotient is 0/0);
+    otherwise, with a zero denominator the C++ quotient is `inf` and the comparison is false. -/
 def converged (n : Nat) (A : Mat) : Bool :=
-  decide (diagSum n A ≠ 0 ∧ offSum n A / diagSum n A < convThreshold)
+  decide (offSum n A = 0 ∨ (diagSum n A ≠ 0 ∧ offSum n A / diagSum n A < convThreshold))
 
 def diagonal (n : Nat) (A : Mat) : List Rat := (List.range n).map fun j => get A j j
 
